@@ -19,7 +19,7 @@ $solo = comdat largest
 
 declare i32 @__personality(...)
 declare void @llvm.dbg.value(metadata, metadata, metadata)
-declare void @may_throw()
+declare void @may_throw() #0
 
 define void (%pair*)* @pick() {
   ret void (%pair*)* @use_pair
@@ -130,6 +130,14 @@ indirect:
   ret i32 %x
 }
 
+declare void @prealloc_callee(%pair*)
+
+define void @typed_attributes(%pair* %arg) preallocated(%pair) {
+entry:
+  call void @prealloc_callee(%pair* %arg)
+  ret void
+}
+
 define i32 @numbered(i32, i32) {
   %3 = add i32 %0, %1
   %4 = mul i32 %3, %3
@@ -146,6 +154,8 @@ define i32 @small_numbered(i32) {
 }
 
 uselistorder_bb @dispatch, %case_c, { 2, 0, 1 }
+
+attributes #0 = { nounwind preallocated(%vt) }
 
 !llvm.dbg.cu = !{!4}
 !llvm.module.flags = !{!0}
